@@ -1107,11 +1107,11 @@ pub fn exec(cfg: &Config, ops: &[HOp]) -> ExecResult {
                     }
                 }
                 if diverged {
-                    // C02: a state that deviates from the specification exactly as the pinned
+                    // C01/C02: a state that deviates from the specification exactly as the pinned
                     // tree's does on the same history is a (listed) finding of that tree; the run
                     // goes on, so that later transaction ends are still judged (real = spec or
                     // real = pinned tree, per access path). Anything else ends the run.
-                    if prop == "C02" && !beyond_pinned {
+                    if (prop == "C02" || prop == "C01") && !beyond_pinned {
                         *probes.entry("run_continued_after_state_divergence_shared_with_pinned_tree").or_insert(0) += 1;
                     } else {
                         *probes.entry("run_stopped_on_state_divergence").or_insert(0) += 1;
